@@ -243,6 +243,91 @@ fn main() {
             }
             (configs, err)
         }
+        "decoder-trace" => {
+            // Engine M (conformance side): run ONE configuration of the abstract protocol model
+            // (readers' operation lists, bytes the compressed stream delivers) on the real
+            // compression.rs under loom and write every DISTINCT event trace (hook H7) to --out.
+            //   --chunks C --avail E --ops "g:0:2,r:1:1;x:0:1" (readers separated by ';') --out FILE
+            let chunks: usize = opt(&args, "--chunks").unwrap().parse().unwrap();
+            let chunk = 2usize;
+            let total = chunks * chunk;
+            let avail: usize = opt(&args, "--avail").map(|x| x.parse().unwrap()).unwrap_or(total);
+            let out = opt(&args, "--out").expect("--out");
+            let readers: Vec<Vec<(char, usize, usize)>> = opt(&args, "--ops")
+                .expect("--ops")
+                .split(';')
+                .map(|r| {
+                    r.split(',')
+                        .filter(|x| !x.is_empty())
+                        .map(|o| {
+                            let f: Vec<&str> = o.split(':').collect();
+                            (f[0].chars().next().unwrap(), f[1].parse().unwrap(), f[2].parse().unwrap())
+                        })
+                        .collect()
+                })
+                .collect();
+            let data = payload(total);
+            let traces: Arc<std::sync::Mutex<std::collections::BTreeSet<Vec<jbk::verif::trace::Event>>>> = Default::default();
+            jbk::verif::trace::enable(true);
+            let (t2, d2, r2) = (traces.clone(), data.clone(), readers.clone());
+            let r = model(bound, move || {
+                EXECUTIONS.fetch_add(1, Ordering::Relaxed);
+                let _ = jbk::verif::trace::take();
+                let dec = Scripted { data: d2.clone(), pos: 0, script: vec![2], call: 0, eof_at: Some(avail) };
+                let region = Arc::new(jbk::verif::region_in_decoder_chunked(dec, total, chunk, 0, total as u64));
+                let data3 = Arc::new(d2.clone());
+                let run = |tag: u8, ops: Vec<(char, usize, usize)>, region: Arc<jbk::reader::ByteRegion>, data: Arc<Vec<u8>>| {
+                    jbk::verif::trace::set_thread_tag(tag);
+                    for (k, (kind, o, n)) in ops.into_iter().enumerate() {
+                        jbk::verif::trace::emit(b'b', k, 0);
+                        // outcome: 0 = error, 1 + count = Ok(count bytes, all equal to the payload), 9999 = wrong bytes
+                        let outcome = match kind {
+                            'g' => match region.get_slice(jbk::Offset::new(o as u64), n) {
+                                Ok(s) => if s.len() == n && s[..] == data[o..o + n] { 1 + n } else { 9999 },
+                                Err(_) => 0,
+                            },
+                            'r' => {
+                                let mut buf = vec![0u8; n];
+                                match jbk::verif::region_read(&region, o as u64, &mut buf) {
+                                    Ok(got) => if got <= n && o + got <= data.len() && buf[..got] == data[o..o + got] { 1 + got } else { 9999 },
+                                    Err(_) => 0,
+                                }
+                            }
+                            'x' => {
+                                let mut buf = vec![0u8; n];
+                                match jbk::verif::region_read_exact(&region, o as u64, &mut buf) {
+                                    Ok(()) => if buf[..] == data[o..o + n] { 1 + n } else { 9999 },
+                                    Err(_) => 0,
+                                }
+                            }
+                            _ => panic!("unknown op kind"),
+                        };
+                        jbk::verif::trace::emit(b'x', outcome, 0);
+                    }
+                };
+                let mut hs = vec![];
+                for (i, ops) in r2.iter().enumerate().skip(1) {
+                    let (r, d, ops) = (region.clone(), data3.clone(), ops.clone());
+                    hs.push(loom::thread::spawn(move || run(i as u8, ops, r, d)));
+                }
+                run(0, r2[0].clone(), region.clone(), data3.clone());
+                for h in hs {
+                    h.join().unwrap();
+                }
+                // the decoder may still be running: only the readers' part of the trace is complete
+                t2.lock().unwrap().insert(jbk::verif::trace::take());
+            });
+            let set = traces.lock().unwrap();
+            let mut f = std::io::BufWriter::new(std::fs::File::create(&out).expect("create --out"));
+            use std::io::Write;
+            for t in set.iter() {
+                let line: Vec<String> = t.iter().map(|(tag, code, a, b)| format!("{}{}:{}:{}", if *tag == 255 { "D".to_string() } else { tag.to_string() }, *code as char, a, b)).collect();
+                writeln!(f, "{}", line.join(" ")).unwrap();
+            }
+            let err = r.err().map(|e| format!("ops {readers:?} avail {avail}: {e}"));
+            println!("{}", serde_json::json!({"configs": 1, "executions": EXECUTIONS.load(Ordering::Relaxed), "distinct_traces": set.len(), "ok": err.is_none(), "error": err}));
+            std::process::exit(if err.is_none() { 0 } else { 1 })
+        }
         "decoder-eof" => {
             // the compressed stream ends early: every reader must get an error, never wait forever
             let chunk = 2usize;
